@@ -370,8 +370,13 @@ Proof. exact help_word_dropped. Qed.
 Print Assumptions help_word_dropped.
 (* ... and an option behind the names does not change the names walked: for a path of plain names reaching a command
    without default sub-commands, "help <path>" and "<path> <option> ..." (--help, -h) have the same target, the path
-   walked - provided the lenient parse of either line does not raise (C02: it raises nothing but ValueError). *)
-Theorem help_same_page : forall a path o r b p x1 x2,
+   walked - provided the lenient parse of either line does not raise (C02: it raises nothing but ValueError).
+   PARTIAL.  The full statement would be, for every application and path,
+     help_target a (S_help :: path) = help_target a (path ++ [T_help]);
+   missing: commands with default sub-commands (they are probed by parsing the whole line with their own leniency, so
+   the extra option token can change which default is picked or raise NoSuchOption when the configuration defines no
+   such option) and the two parse hypotheses. *)
+Theorem help_same_page_partial : forall a path o r b p x1 x2,
   forallb lead_ok path = true ->
   (match path with t :: _ => str_eqb t S_help = false | [] => True end) ->
   starts_dash o = true ->
@@ -380,7 +385,7 @@ Theorem help_same_page : forall a path o r b p x1 x2,
   parse (b_fmt b) true path = Ok x1 -> parse (b_fmt b) true (path ++ o :: r) = Ok x2 ->
   help_target a (S_help :: path) = Ok p /\ help_target a (path ++ o :: r) = Ok p.
 Proof. exact help_same_target. Qed.
-Print Assumptions help_same_page.
+Print Assumptions help_same_page_partial.
 
 Definition ex_cfg : appcfg :=
   {| ac_opts := [{| o_long := S_help; o_short := Some [104%N]; o_flags := 4; o_default := VNone |}]; ac_args := [];
